@@ -139,7 +139,7 @@ def sweep(fn: typing.Callable, args: typing.Iterable, budget_s: float, per_item_
             for fut in pending:
                 fut.cancel()
             procs = list((getattr(pool, '_processes', None) or {}).values())
-            pool.shutdown(wait=False, cancel_futures=True)
+            pool.shutdown(wait=not pending, cancel_futures=True)  # orderly unless a worker is stuck
             for proc in procs if pending else []:
                 try:
                     proc.kill()
